@@ -229,7 +229,7 @@ func (f *Frame) checkMeasure(li *loopInfo, phiVal func(*ssa.Phi) Val, phis []*ss
 			return
 		}
 		if vc.contract.Terminates {
-			f.oblige(fmt.Sprintf("dec:loop%d", li.ordinal), "false", fmt.Sprintf("loop %d has no decreases clause", li.ordinal), li.header.Instrs[0].Pos(), nil, true)
+			f.oblige(fmt.Sprintf("dec:loop%d", li.ordinal), "false", fmt.Sprintf("loop %d has no decreases clause", li.ordinal), li.header.Instrs[0].Pos(), vc.contract.TermTags, true)
 		}
 		return
 	}
